@@ -275,6 +275,12 @@ def verify_one(h, art, workdir, cap_t, cap_mem):
             unwind_fail.append(rec)
         elif cls == "unsupported_construct":
             unsupported.append(rec)
+        elif "expect_refusal" in h["flags"] and cls == "assertion" and "ZV_NOT_REFUSED" not in rec["desc"] \
+                and rec["loc"].startswith("/"):  # absolute path = code outside the harness crate
+            # the harness drives an out-of-contract call that the API documents to refuse by panicking:
+            # a failed assertion/panic inside zipora IS the refusal; the sentinel assert!(false, "ZV_NOT_REFUSED")
+            # placed after the call must stay unreachable
+            res.setdefault("refusals", []).append(rec)
         else:
             failed.append(rec)
     res["checked_properties"] = sum(1 for p in props if prop_class(p["property"]) not in ("reachability_check", "cover"))
@@ -292,6 +298,8 @@ def verify_one(h, art, workdir, cap_t, cap_mem):
     else:
         # covers whose message starts with "opt:" are informational, all others are vacuity witnesses
         bad = [k for k, v in res["covers"].items() if v != "SATISFIED" and not k.lstrip('"').startswith("opt:")]
+        if "expect_refusal" in h["flags"] and not res.get("refusals"):
+            bad.append("expect_refusal: no refusal (panic inside zipora) was reachable")
         if not res["covers"]:
             res["status"], res["reason"] = "inconclusive", "no reachability witness (cover) in harness"
         elif bad and "covers_optional" not in h["flags"]:
@@ -468,7 +476,7 @@ def main():
     ap = argparse.ArgumentParser()
     ap.add_argument("prop")
     ap.add_argument("--tier", default=os.environ.get("VERIF_TIER", "quick"), choices=["quick", "thorough"])
-    ap.add_argument("--only", default=None, help="substring filter on harness names")
+    ap.add_argument("--only", default=None, help="regular expression (re.search) on harness names")
     ap.add_argument("--replay", default=None, help="replay a recorded counterexample file natively")
     ap.add_argument("--jobs", type=int, default=int(os.environ.get("ZV_JOBS", str(min(NCPU, 14)))))
     ap.add_argument("--no-evidence", action="store_true")
@@ -502,7 +510,7 @@ def main():
     # a twin harness runs only while its finding is listed as open
     hs = [h for h in hs if not ("twin" in h["flags"] and h["kf"] not in open_kf)]
     if a.only:
-        hs = [h for h in hs if a.only in h["name"]]
+        hs = [h for h in hs if re.search(a.only, h["name"])]
     if not hs:
         log(f"no harness registered for {prop} at tier {a.tier}")
         return 2
